@@ -72,7 +72,9 @@ namespace rkcommon {
         return tbb::global_control::active_value(
             tbb::global_control::max_allowed_parallelism);
 #elif defined(RKCOMMON_TASKING_OMP)
-        return omp_get_max_threads();
+        // omp_set_num_threads() / omp_get_max_threads() act on the calling
+        // thread only: report the configured count, whichever thread asks
+        return numThreads > 0 ? numThreads : omp_get_max_threads();
 #elif defined(RKCOMMON_TASKING_INTERNAL)
         return detail::numThreadsTaskSystemInternal();
 #else
